@@ -126,6 +126,9 @@ struct Fw {
     ref_cache: BTreeMap<(usize, Vec<u8>), RefCacheEntry>,
     /// C13 reference learning table: (node, src bytes) -> (peer addr, learned at)
     learned: BTreeMap<(usize, Vec<u8>), (SocketAddr, i64)>,
+    /// addresses learned behind a peer whose connection was replaced by a new handshake since: the old connection
+    /// ended ("P disconnects"), the same address answers again - forgetting and keeping are both right
+    maybe_learned: BTreeMap<(usize, Vec<u8>), (SocketAddr, i64)>,
     /// frames: marker -> (origin node, selected peer nodes (None = unknown), lossless)
     frames: BTreeMap<u32, FrameInfo>,
     counter: u32,
@@ -233,6 +236,7 @@ impl Fw {
                     if withdrawn {
                         self.ref_cache.retain(|k, e| !(k.0 == i && e.peer == *peer));
                         self.learned.retain(|k, e| !(k.0 == i && e.0 == *peer));
+                        self.maybe_learned.retain(|k, e| !(k.0 == i && e.0 == *peer));
                         w.count("fwd_claim_withdrawals");
                     }
                     self.announced.insert((i, *peer), (new, now));
@@ -244,11 +248,18 @@ impl Fw {
                     self.announced.remove(&(i, *addr));
                     self.ref_cache.retain(|k, e| !(k.0 == i && e.peer == *addr));
                     self.learned.retain(|k, e| !(k.0 == i && e.0 == *addr));
+                    self.maybe_learned.retain(|k, e| !(k.0 == i && e.0 == *addr));
                 }
                 Event::PeerAdded { addr } => {
                     // a new handshake supersedes the old peer entry; its announcement follows in the same step
                     self.session_ms.insert((i, *addr), w.now_ms);
                     self.session_events.push((i, *addr, w.now_ms));
+                    let moved: Vec<(usize, Vec<u8>)> = self.learned.iter().filter(|(k, e)| k.0 == i && e.0 == *addr).map(|(k, _)| k.clone()).collect();
+                    for k in moved {
+                        if let Some(e) = self.learned.remove(&k) {
+                            self.maybe_learned.insert(k, e);
+                        }
+                    }
                 }
                 _ => {}
             }
@@ -503,6 +514,13 @@ impl Fw {
                 }
                 _ => adm.push(None),
             }
+            if l.is_none() {
+                if let Some((p, t)) = self.maybe_learned.get(&key).copied() {
+                    if peers.contains(&p) && now <= t + self.switch_timeout + 2 {
+                        adm.push(Some(p));
+                    }
+                }
+            }
             // claims (MAC ranges) also route in switch mode; accept the longest match as an alternative
             if adm.contains(&None) {
                 for p in &lpm_peers {
@@ -612,6 +630,7 @@ impl Fw {
             // C13 reference learning
             if self.learning {
                 if let Some((s, _)) = self.parse(&data) {
+                    self.maybe_learned.remove(&(j, s.clone()));
                     self.learned.insert((j, s), (src, now));
                     w.count("c13_addresses_learned");
                 }
@@ -915,6 +934,7 @@ pub fn scenario(w: &mut World, ctx: &RunCtx, focus: Focus, states: &mut Vec<u64>
         announced: BTreeMap::new(),
         ref_cache: BTreeMap::new(),
         learned: BTreeMap::new(),
+        maybe_learned: BTreeMap::new(),
         frames: BTreeMap::new(),
         counter: 0,
         foreign: 0,
@@ -1073,6 +1093,7 @@ pub fn scenario(w: &mut World, ctx: &RunCtx, focus: Focus, states: &mut Vec<u64>
                         }
                         fw.ref_cache.retain(|k, _| k.0 != who);
                         fw.learned.retain(|k, _| k.0 != who);
+                        fw.maybe_learned.retain(|k, _| k.0 != who);
                         fw.disturbed.push((who, w.now_ms));
                         fw.started_ms[who] = w.now_ms;
                         fw.session_ms.retain(|k, _| k.0 != who);
